@@ -73,7 +73,23 @@ def _palette(bb, sb):
 @st.composite
 def stacks_strategy(draw, n, sb, bb, short_bias=False):
     pal = _palette(bb, sb)
-    style = draw(st.integers(0, 5))
+    style = draw(st.integers(0, 6))
+    if style == 6 and n >= 4:
+        # "ladder": deep players plus short stacks whose consecutive all-in
+        # raises over a minimum raise sum to just below / exactly / just
+        # above one full raise (the short all-in re-opening rule)
+        full = draw(st.sampled_from([bb, 2 * bb]))
+        x = bb + full
+        parts = draw(st.sampled_from([2, 2, 3]))
+        tot = full + draw(st.sampled_from([-1, 0, 0, 0, 1]))
+        tot = max(parts, tot)
+        cuts = sorted(draw(st.lists(st.integers(1, max(1, tot - 1)),
+                                    min_size=parts - 1, max_size=parts - 1)))
+        levels = [x + c for c in cuts] + [x + tot]
+        deep = [draw(st.sampled_from([25 * bb, 60 * bb, 100 * bb]))
+                for _ in range(n - len(levels))]
+        vals = deep + levels[:n]
+        return draw(st.permutations(vals[:n]))
     if style == 0:
         v = draw(st.sampled_from(pal))
         return [v] * n
